@@ -270,14 +270,26 @@ Definition ping (st : state) : state :=
 (* a history: the tree and configuration found by each successive reload, and its argument.
    Any sequence of modify / touch / create / delete / rename / config steps between two reloads is
    summarised by the tree and configuration the second one finds. *)
-Record rstep := { rs_tree : tree; rs_cfg : apps_config; rs_arg : rarg }.
+Record rstep := { rs_tree : tree; rs_cfg : apps_config; rs_arg : rarg;
+                  rs_opts : N  (* the global options hass_is_global / allow_all_imports found in the YAML *) }.
 
-Fixpoint run_from (dv : deviations) (born : N) (st : state) (steps : list rstep) : list step_res :=
+(* reload_scripts_handler: update_yaml_config() compares the global options with those remembered by the previous
+   reload (CONFIG_ENTRY_OLD; nothing is remembered before the first reload) and turns the reload into '*' on a change *)
+Definition eff_arg (old : option N) (s : rstep) : rarg :=
+  match old with
+  | Some o => if (o =? rs_opts s)%N then rs_arg s else RAll
+  | None => rs_arg s
+  end.
+(* step 0 is the start-up (async_setup_entry does not call update_yaml_config the first time) *)
+Definition next_old (born : N) (s : rstep) : option N := if (born =? 0)%N then None else Some (rs_opts s).
+
+Fixpoint run_from (dv : deviations) (born : N) (old : option N) (st : state) (steps : list rstep) : list step_res :=
   match steps with
   | [] => []
   | s :: rest =>
-    let r := reload dv born st (rs_tree s) (rs_cfg s) (rs_arg s) in
+    let r := reload dv born st (rs_tree s) (rs_cfg s) (eff_arg old s) in
     let st' := ping (r_st r) in
-    {| r_st := st'; r_ev := r_ev r; r_fuel := r_fuel r; r_plan := r_plan r |} :: run_from dv (born + 1)%N st' rest
+    {| r_st := st'; r_ev := r_ev r; r_fuel := r_fuel r; r_plan := r_plan r |}
+      :: run_from dv (born + 1)%N (next_old born s) st' rest
   end.
-Definition run (dv : deviations) (steps : list rstep) : list step_res := run_from dv 0%N [] steps.
+Definition run (dv : deviations) (steps : list rstep) : list step_res := run_from dv 0%N None [] steps.
